@@ -10,6 +10,11 @@ func read(rd io.Reader) (byte, error) {
 
 	i, err := rd.Read(b)
 
+	// a reader may deliver the last byte together with io.EOF
+	if i == 1 {
+		return b[0], nil
+	}
+
 	if err != nil {
 		return 0, err
 	}
@@ -24,9 +29,16 @@ func read(rd io.Reader) (byte, error) {
 func convert(b []byte) (out []byte, err error) {
 	out = make([]byte, len(b)/2)
 
+	want := len(b) / 2
+
 	_, err = fmt.Sscanf(string(b), "%X", &out)
 	if err != nil {
 		return nil, err
+	}
+
+	// everything up to the end of the line must be hex digit pairs
+	if len(b)%2 != 0 || len(out) != want {
+		return nil, fmt.Errorf("invalid hex data %q", string(b))
 	}
 
 	return out, nil
